@@ -1158,6 +1158,54 @@ def c07(rep, tier, seed, wd, replay):
                 rep.violation("listed-without-permission", "a listing shows an account the client's permissions do not grant access to",
                               {"config": m[0], "ops": [m[1]] * 3, "impl": m[2]})
                 break
+    # account CREATION is a served operation too ('Create account'): the account that comes into existence must be one the
+    # specification lets this client create — under the name it now HAS (the reply of the harness names it, looked up by
+    # the key the service returned), whatever spelling the request used (surrounding blanks, tabs, letter case, doubled slash)
+    if REPLAY is None or any(o.startswith("create ") for o in REPLAY.get("ops", [])):
+        c_accts, _, _ = hist.std_config(lkeys, nacct=3, locked=False)
+        cstage = []
+        for pat, base in (("Wallet 1/Validator.*", "Validator3"), ("Wallet 1/.*[0-9]", "Acc7"), ("Wallet 1/New", "New"), ("Wallet 1/(?i)dep.*", "Deposit")):
+            cperms = [("client1", pat, ["~Create account", "All"]), ("client1", "Wallet 1", ["All"]), ("client2", "Wallet 1/" + base, ["Create account"])]
+            ccfg = ["nocache"] + hist.config_lines(c_accts, cperms, [])
+            cops = []
+            # (the plain name last: once it exists, a spelling that is mistaken for it would only be refused as a duplicate)
+            for q, nm in enumerate([" " + base, base + " ", "\t" + base, base + "\n", "  " + base + "  ", base.upper(), base.lower(), "/" + base, "Other%d" % len(cstage), base]):
+                for who in ("client1", "client2"):
+                    cops.append("create %s %s" % (hx(who), hx("Wallet 1/" + nm)))
+            cops.append("list %s %s" % (hx("client1"), hx("Wallet 1")))
+            cstage.append((ccfg, cops))
+        if REPLAY is not None:
+            cstage = [(REPLAY["config"], REPLAY["ops"])]
+        cl = []
+        for ccfg, cops in cstage:
+            cl += ["reset"] + ccfg + cops
+        cimpl, ccrashed, cerr = run_impl(dh, wd, cl)
+        cmodel = run_model(cl)
+        if ccrashed:
+            rep.broken.append(("implementation-crash:create", cerr[-1500:], False))
+        else:
+            pos, jl, jm = 0, [], []
+            for ccfg, cops in cstage:
+                seg_i, seg_m = cimpl[pos + 1:pos + 1 + len(cops)], cmodel[pos + 1:pos + 1 + len(cops)]
+                pos += 1 + len(cops)
+                jl += ["reset"] + [l for l in ccfg if l.split()[0] in ("acct", "perm", "permclient", "wallet")] + ["begin"]
+                jm.append(None)
+                for k_, (o, io, mo) in enumerate(zip(cops, seg_i, seg_m)):
+                    rep.count("create-stage|" + o, io.startswith("ok"))
+                    if io.strip() != mo.strip() and not any(b[0].startswith("correspondence:create") for b in rep.broken):
+                        rep.broken.append(("correspondence:create(model createAccount vs process service)", json.dumps({"config": ccfg, "ops": cops[:k_ + 1], "impl": io, "model": mo}), True))
+                    if o.startswith("create ") and io.startswith("ok") and len(io.split()) > 1 and io.split()[1] != "?":
+                        jl.append("check %s %s %s" % (o.split()[1], io.split()[1], hx("Create account")))
+                        jm.append((ccfg, cops[:k_ + 1], io))
+            jo = run_model(jl)
+            rep.cov["creations_judged_against_permissions"] = sum(1 for m in jm if m is not None)
+            for m, o in zip(jm, jo):
+                if m is not None and o.strip() == "0":
+                    made = bytes.fromhex(m[2].split()[1]).decode(errors="replace")
+                    rep.violation("created-without-permission", "an account was created that the client's permissions do not let it create: %r now exists" % made,
+                                  {"config": m[0], "ops": m[1], "impl": m[2]})
+                    break
+
     def identity_variants(keys_, rng_):
         """through the real gRPC API, callers whose verified certificate subject differs from a configured client's name in letter
         case, by surrounding blanks, or by a trailing dot: they are other identities and have no permissions"""
@@ -1484,6 +1532,19 @@ def c08(rep, tier, seed, wd, replay):
         ops.append("prop %s - %s %s,%d,%d,%s,%s,%s -" % (hx("c"), adr(a), hist.dom32(DOM_PROP, rng).hex(), epoch, rng.choice([0, hist.TWO64 - 1, 9]), rt[0], rt[1], rt[2]))
         ops.append("sign %s - %s %s,%s -" % (hx("c"), adr(a), hist.dom32(DOM_RANDAO, rng).hex(), rt[0]))
         epoch += 2
+    # a request whose signing step (g0) or state write (s, S) FAILS between two that succeed, then the very same request
+    # again, then a fresh one: whatever a signer remembers about earlier requests (last root, last signature, retries), a
+    # signature that is returned is over the data of the request it answers
+    for q_, a in enumerate(rng.shuffle(accts)[:6]):
+        flt = ["g0", "s", "S", "g0", "g0", "s"][q_]
+        form = adr(a)
+        pr = lambda sl_, tg_, f_="-": "prop %s - %s %s,%d,%d,%s,%s,%s %s" % (hx("c"), form, (DOM_PROP + bytes(28)).hex(), sl_, 3, bytes([tg_]).hex() * 32, bytes([tg_ + 1]).hex() * 32, bytes([tg_ + 2]).hex() * 32, f_)
+        at = lambda s_, t_, tg_, f_="-": "att %s - %s %s,%d,%d,%s,%d,%s,%d,%s %s" % (hx("c"), form, (DOM_ATT + bytes(28)).hex(), 5, 1, bytes([tg_]).hex() * 32, s_, bytes([tg_ + 1]).hex() * 32, t_, bytes([tg_ + 2]).hex() * 32, f_)
+        ops += [pr(epoch, 0x10), pr(epoch, 0x10), pr(epoch + 1, 0x20, flt), pr(epoch + 1, 0x20), pr(epoch + 1, 0x20), pr(epoch + 2, 0x30),
+                at(epoch, epoch + 1, 0x40), at(epoch, epoch + 1, 0x40), at(epoch + 1, epoch + 2, 0x50, flt), at(epoch + 1, epoch + 2, 0x50), at(epoch + 2, epoch + 3, 0x60)]
+        sg = lambda tg_, f_="-": "sign %s - %s %s,%s %s" % (hx("c"), form, (DOM_RANDAO + bytes(28)).hex(), bytes([tg_]).hex() * 32, f_)
+        ops += [sg(0x70), sg(0x71, "g0"), sg(0x71), sg(0x72)]
+        epoch += 4
     all_h = []
     runs = [({"cfg": cfg, "ops": ops, "accts": accts + [locked, dist1, dist2, sl1, sl2], "opts": {}, "gomaxprocs": p}, "ssz") for p in ([1, 2, 3, 16] if not big else [1, 2, 3, 16, 128])]
     runs.append(({"cfg": cfg, "ops": ops_big, "accts": accts + [locked, dist1, dist2, sl1, sl2], "opts": {}, "gomaxprocs": 3}, "ssz-big"))
@@ -2529,8 +2590,8 @@ def c18(rep, tier, seed, wd, replay):
                 jm.append((si, i))
             elif f[0] == "create":
                 rep.dist("create", io)
-                if io == "ok":
-                    jl.append("jcreate %s" % f[2])
+                if io.startswith("ok"):
+                    jl.append("jcreate %s" % (io.split()[1] if len(io.split()) > 1 and io.split()[1] != "?" else f[2]))
                     jm.append(None)
     # hypothesis of C18_complete_whole_name evaluated for every requested account pattern
     lpats = set()
